@@ -327,6 +327,31 @@ def finish(ctx, level="proof", obligations=None, discharged=None,
 # proof step shared by all checks
 
 
+def lean_imports(module, seen=None):
+    """transitive `import MaestroVerif.*` closure of a module of the library"""
+    seen = set() if seen is None else seen
+    if module in seen:
+        return seen
+    seen.add(module)
+    path = os.path.join(LEAN, *module.split(".")) + ".lean"
+    if os.path.exists(path):
+        for m in re.findall(r"^import\s+(MaestroVerif\.[A-Za-z0-9_.]+)", open(path).read(), re.M):
+            lean_imports(m, seen)
+    return seen
+
+
+def translation_breaks(ctx, tinfo):
+    """a table that could not be regenerated from the source leaves a stale
+    Gen file behind: every theorem that depends on it is no longer shown to
+    hold for the current code"""
+    deps = lean_imports("MaestroVerif.Props." + ctx.prop) | lean_imports("Driver")
+    bad = []
+    for name, info in (tinfo or {}).items():
+        if isinstance(info, dict) and "error" in info and ("MaestroVerif.Gen." + name) in deps:
+            bad.append("translation of Gen/%s.lean from the source failed (%s)" % (name, info["error"][:160]))
+    return bad
+
+
 def proof_step(ctx, extra_targets=()):
     """translate (done by caller) -> build -> grep -> audit.
     Returns (ok, info).  ok=False means a proof obligation no longer checks;
